@@ -169,6 +169,27 @@ pub fn run_dec2(w: &[&str]) -> String {
             if joined != a { return format!("{} | {} | clone-after-{}{} {}", a, b, k, if owned { "-owned" } else { "" }, joined) }
         }
     }
+    // tokenising in two steps through the same decoder: k tokens pulled with `Tokenizer::token()` (the public method `next` is made of),
+    // the tokenizer dropped, `Decoder::tokens()` once more: the decoder stands behind the k tokens, the two parts make the whole
+    for k in [1usize, 2, 3, 5] {
+        for style in 0 .. 2 {
+            let mut d5 = Decoder::new(&input);
+            d5.set_position(pos);
+            let mut head = Vec::new();
+            let mut failed = false;
+            {
+                let mut t = d5.tokens();
+                for i in 0 .. k {
+                    let r = if style == 0 || i % 2 == 0 { t.token() } else { match t.next() { Some(r) => r, None => { failed = true; break } } };
+                    match r { Ok(x) => head.push(show(&x)), Err(_) => { failed = true; break } }
+                }
+            }
+            if failed { continue }
+            let rest = drain(d5.tokens());
+            let joined = if rest.starts_with("- ") { format!("{}{}", head.join(","), &rest[1..]) } else { format!("{},{}", head.join(","), rest) };
+            if joined != a { return format!("{} | {} | split-after-{}-style{} {}", a, b, k, style, joined) }
+        }
+    }
     format!("{} | {} | {}", a, b, c)
 }
 
